@@ -109,6 +109,25 @@ func buildArithTemplates(p *Program) map[string]string {
 			}
 			continue
 		}
+		// pure accessor: return p.f  (List.Front() = l.head, VectorisedView.Size() = vv.size)
+		if ld, ok := ret.Results[0].(*ssa.UnOp); ok && ld.Op == token.MUL {
+			if fa, ok := ld.X.(*ssa.FieldAddr); ok {
+				if par, ok := fa.X.(*ssa.Parameter); ok && len(fn.Blocks[0].Instrs) <= 4 {
+					if fv, _ := fieldOf(fa); fv != nil {
+						out[FuncName(fn)] = "$" + strconv.Itoa(paramIndex(par)) + "." + fv.Name()
+					}
+				}
+			}
+			continue
+		}
+		if fl, ok := ret.Results[0].(*ssa.Field); ok {
+			if par, ok := fl.X.(*ssa.Parameter); ok && len(fn.Blocks[0].Instrs) <= 4 {
+				if fv, _ := fieldOf(fl); fv != nil {
+					out[FuncName(fn)] = "$" + strconv.Itoa(paramIndex(par)) + "." + fv.Name()
+				}
+			}
+			continue
+		}
 		if !pure(ret.Results[0], 0) {
 			continue
 		}
@@ -553,7 +572,12 @@ func canon(s string, depth int) string {
 			var fs []string
 			for _, f := range splitTopSep(s[k+1:len(s)-1], ", ") {
 				if i := strings.Index(f, ": "); i > 0 && !strings.ContainsAny(f[:i], "([{\"") {
-					fs = append(fs, f[:i+2]+canon(f[i+2:], depth+1))
+					v := canon(f[i+2:], depth+1)
+					// a field set to its zero value is the same as a field left out
+					if v == "0" || v == "nil" || v == "false" || v == `""` || v == "zero" {
+						continue
+					}
+					fs = append(fs, f[:i+2]+v)
 				} else {
 					fs = append(fs, canon(f, depth+1))
 				}
